@@ -424,7 +424,9 @@ func Shapes(k Kind) []Shape {
 	case KPublicKey:
 		return []Shape{
 			{Name: "pk-id", Class: "publickey", Build: func(g *Gen) reflect.Value { return val(ap.PublicKey{ID: g.IRI()}) }},
-			{Name: "pk-pem", Class: "publickey", Build: func(g *Gen) reflect.Value { return val(ap.PublicKey{PublicKeyPem: "-----BEGIN PUBLIC KEY-----\nMIIB\n-----END PUBLIC KEY-----"}) }},
+			{Name: "pk-pem", Class: "publickey", Build: func(g *Gen) reflect.Value {
+				return val(ap.PublicKey{PublicKeyPem: "-----BEGIN PUBLIC KEY-----\nMIIB\n-----END PUBLIC KEY-----"})
+			}},
 			{Name: "pk-id-owner", Class: "publickey", Build: func(g *Gen) reflect.Value { return val(ap.PublicKey{ID: g.IRI(), Owner: g.IRI()}) }},
 			{Name: "pk-all", Class: "publickey", Quick: true, Build: func(g *Gen) reflect.Value {
 				return val(ap.PublicKey{ID: g.IRI(), Owner: g.IRI(), PublicKeyPem: "-----BEGIN PUBLIC KEY-----\nMIIB\n-----END PUBLIC KEY-----"})
